@@ -178,11 +178,6 @@ func c20Run(c *core.Ctx, invoke string, kinds []int) {
 			c.Fail("file-arguments-replaced", "not-replaced", wit, map[string]any{"position": i, "arg": got})
 			return
 		}
-		if !strings.HasSuffix(got, "."+kd.Format) {
-			c.Outcome("WRONG-EXTENSION")
-			c.Fail("file-arguments-replaced", "replacement-has-other-extension", wit, map[string]any{"position": i, "arg": got})
-			return
-		}
 		content, ok := rec.Files[got]
 		if !ok {
 			c.Outcome("REPLACEMENT-NOT-A-FILE")
